@@ -230,4 +230,14 @@ def _carrier_conv(rep):
     return rep["clause"] in res["failed"].get(0, [])
 
 
-REPLAYERS = {"carrier_conv": _carrier_conv, "validate_case": _validate_case, "envelope_case": _envelope_case, "codec_value": _codec_value, "sse_script": _sse_script, "http_seq": _http_seq, "host_case": _host_case, "lifecycle": _lifecycle, "stdio_out": _stdio_out, "framing": _framing, "gate_script": _gate_script, "version_runs": _version_runs, "handshake": _handshake, "handshake_server": _handshake_server, "dispatch_case": _dispatch_case, "session_ops": _session_ops, "errorclass_case": _errorclass_case, "errorclass_sets": _errorclass_sets}
+def _routing(rep):
+    from harness.drivers import stdio_drv
+    t = stdio_drv.run_routing([rep["script"]])
+    print(json.dumps(t[0]))
+    slim = [[{k: v for k, v in e.items() if k != "stray"} for e in t[0]]]
+    res = validate.validate("StdioRoutingTrace", slim, {"Ids": {"a", "7", "b"}, "MaxMsgs": 1000}, work=os.path.join(tlc.WORK, "replay_rt"), jobs=1)
+    print("rejected:", res["rejected"])
+    return bool(res["rejected"]) or any(e.get("stray") for e in t[0])
+
+
+REPLAYERS = {"routing": _routing, "carrier_conv": _carrier_conv, "validate_case": _validate_case, "envelope_case": _envelope_case, "codec_value": _codec_value, "sse_script": _sse_script, "http_seq": _http_seq, "host_case": _host_case, "lifecycle": _lifecycle, "stdio_out": _stdio_out, "framing": _framing, "gate_script": _gate_script, "version_runs": _version_runs, "handshake": _handshake, "handshake_server": _handshake_server, "dispatch_case": _dispatch_case, "session_ops": _session_ops, "errorclass_case": _errorclass_case, "errorclass_sets": _errorclass_sets}
